@@ -13,6 +13,8 @@ from .disc_common import dispatcher, min_error_dual, min_error_primal, returns_o
 
 def run(ctx):
     m = ctx.model
+    from .disc_common import states_unscaled
+    states_unscaled(ctx, "/state_distinguishability.py")
     from ..rules import r_parallel_families
     for q_, f_ in sorted(m.functions.items()):
         if f_.file.endswith("/state_distinguishability.py") and f_.parent is None and f_.param("vectors") is not None and f_.param("probs") is not None:
@@ -100,6 +102,18 @@ def run(ctx):
     isd = m.func("is_distinguishable.is_distinguishable")
     r_thread(ctx, isd, "probs", "state_distinguishability.state_distinguishability")
     r_thread(ctx, isd, "states", "state_distinguishability.state_distinguishability", formal="vectors")
+    from ..rules import calls_from as _cf
+    for c_, cal_ in _cf(m, isd, "state_distinguishability.state_distinguishability"):
+        b_ = m.bind(c_, cal_.func)
+        st_ = b_.get("strategy")
+        oks = not isinstance(st_, ast.AST) or (isinstance(st_, ast.Constant) and st_.value == "min_error")
+        ctx.ob("R-BIND", isd, "delegates to the minimum-error programme (strategy left at / set to 'min_error')", oks,
+               "strategy = 'min_error'" if oks else
+               f"`{unparse(c_)[:70]}` binds strategy = {unparse(st_)}: anything but 'min_error' selects the unambiguous programme, whose value reaches 1 on different ensembles "
+               "(zero-prior states, density matrices)", c_)
+        pd_ = b_.get("primal_dual")
+        okp = not isinstance(pd_, ast.AST) or (isinstance(pd_, ast.Constant) and pd_.value in ("dual", "primal"))
+        ctx.ob("R-BIND", isd, "primal_dual is one of the two formulations", okp, "ok" if okp else f"primal_dual = {unparse(pd_)}", c_)
     rets, N = return_terms(m, isd, inline=True)
     good = [t[0] == "call" and t[1] == "numpy.isclose" and ("c", 1) in t[2] and "state_distinguishability" in repr(t) for rn, facts, t in rets]
     ok = bool(good) and all(good)
